@@ -79,28 +79,9 @@ class Search(abc.ABC):
         # Check if results already exist
         self._path_results = os.path.join(self._log_dir, "results.csv")
         if os.path.exists(self._path_results):
-            str_current_time = time.strftime("%Y%m%d-%H%M%S")
-            path_results_dirname = os.path.dirname(self._path_results)
-            path_results_basename = os.path.basename(self._path_results)
-            path_results_renamed = os.path.join(
-                path_results_dirname,
-                path_results_basename.replace(".", f"_{str_current_time}."),
-            )
-            # The time has a resolution of one second: a counter is added to the name if it is
-            # already taken so that previous results are never overwritten by the renaming.
-            count_renamed = 0
-            while os.path.exists(path_results_renamed):
-                count_renamed += 1
-                path_results_renamed = os.path.join(
-                    path_results_dirname,
-                    path_results_basename.replace(".", f"_{str_current_time}_{count_renamed}."),
-                )
+            path_results_renamed = Evaluator.rename_existing_file(self._path_results)
             logging.warning(
-                f"Results file already exists, it will be renamed to {path_results_renamed}"
-            )
-            os.rename(
-                self._path_results,
-                path_results_renamed,
+                f"Results file already exists, it was renamed to {path_results_renamed}"
             )
             evaluator._columns_dumped = None
             evaluator._start_dumping = False
